@@ -973,6 +973,9 @@ func main() {
 		if *part == "all" || *part == "streams" {
 			corrStreams(hx.NewRng(*seed*8+6), *n, thorough)
 		}
+		if *part == "all" || *part == "desc" {
+			corrDesc(hx.NewRng(*seed*8+7), *n, thorough)
+		}
 	case "search":
 		if *part == "all" || *part == "asc" {
 			searchASC(hx.NewRng(*seed*4+1), *n, thorough)
@@ -993,6 +996,10 @@ func main() {
 		if *part == "all" || *part == "streams" {
 			searchStreams(hx.NewRng(*seed*8+6), *n, thorough)
 			fmt.Fprintf(out, "PART\tstreams\t%d\n", evals)
+		}
+		if *part == "all" || *part == "desc" {
+			searchDesc(hx.NewRng(*seed*8+7), *n, thorough)
+			fmt.Fprintf(out, "PART\tdesc\t%d\n", evals)
 		}
 		fmt.Fprintf(out, "EVALS\t%d\n", evals)
 		fmt.Fprintf(out, "DISTINCT\t%d\n", len(distinctSet)+bulkDistinct)
